@@ -142,6 +142,26 @@ def subVA (x y : Int × Int) : Int × Int := (x.1 - y.1, x.2 - y.2)
 def Quantity.isDefined : Quantity → Bool
   | .undefined => false | .constant => false | _ => true
 
+/-- The time exponent expected of the units of an expression of quantity `q` living in domain
+    `d`: signals are spectral densities (one factor 1/Hz per order) exactly in the Laplace,
+    Fourier and angular Fourier domains; impedance, admittance and transfer functions are
+    per-second (impulse responses) exactly in the time domain; power is W everywhere (Lcapy's
+    documented choice, see powermixin.py). -/
+def timeExp (d : Domain) (q : Quantity) : Int :=
+  let spectral := d = .laplace || d = .fourier || d = .angularFourier
+  match q with
+  | .voltage | .current => if spectral then 1 else 0
+  | .voltagesquared | .currentsquared => if spectral then 2 else 0
+  | .impedance | .admittance | .transfer => if d = .time then -1 else 0
+  | .impedancesquared | .admittancesquared => if d = .time then -2 else 0
+  | _ => 0
+
+/-- SI dimension expected of a freshly made / analysis-produced expression of (domain, quantity) -/
+def expectedDim (d : Domain) (q : Quantity) : Dim3 := ⟨(dimQ q).1, (dimQ q).2, timeExp d q⟩
+
+def freshOk (d : Domain) (q : Quantity) (u : U) : Bool :=
+  !q.isDefined || decide (dimU u = expectedDim d q)
+
 /-! ## executable spec predicates (evaluated by the oracle on real Lcapy results) -/
 
 /-- A result labelled with quantity `q` and carrying units `u` is self-consistent: the
@@ -151,14 +171,17 @@ def labelOk (q : Quantity) (u : U) : Bool :=
 
 /-- product: units multiply (SI dimension adds), quantity dimension adds -/
 def mulOk (qa : Quantity) (ua : U) (qb : Quantity) (ub : U) (qr : Quantity) (ur : U) : Bool :=
-  decide (dimU ur = dimU ua + dimU ub) &&
+  -- operands without quantity giving a result without quantity and units make no claim
+  ((!qa.isDefined && !qb.isDefined && !qr.isDefined && decide (ur = U.one)) ||
+    decide (dimU ur = dimU ua + dimU ub)) &&
   (!qr.isDefined || decide (dimQ qr = addVA (dimQ qa) (dimQ qb))) &&
   -- a product of defined quantities that is not dimensionless must not be labelled undefined
   (qr.isDefined || !(qa.isDefined || qb.isDefined) || decide (addVA (dimQ qa) (dimQ qb) = (0, 0)))
 
 /-- quotient -/
 def divOk (qa : Quantity) (ua : U) (qb : Quantity) (ub : U) (qr : Quantity) (ur : U) : Bool :=
-  decide (dimU ur = dimU ua - dimU ub) &&
+  ((!qa.isDefined && !qb.isDefined && !qr.isDefined && decide (ur = U.one)) ||
+    decide (dimU ur = dimU ua - dimU ub)) &&
   (!qr.isDefined || decide (dimQ qr = subVA (dimQ qa) (dimQ qb))) &&
   (qr.isDefined || !(qa.isDefined || qb.isDefined) || decide (subVA (dimQ qa) (dimQ qb) = (0, 0)))
 
